@@ -65,6 +65,27 @@ static void work_tr(long lo, long hi, struct res *r, void *arg) {
     if (r->nsample < 1 && lo < hi) res_sample(r, "month index %ld through store/load, 10 languages, crypt x2", lo);
 }
 
+/* a clock whose readings change inside one call (an intermittently failing time source): whatever the library does,
+ * the birthday must be the one of some value the clock actually returned during the call */
+static void flaky_clock(struct res *r) {
+    static const uint64_t GOOD[] = { R_EPOCH + 25 * R_STEP + 100, R_EPOCH + 900 * R_STEP + 5, R_EPOCH + R_STEP - 1 };
+    static const uint64_t ODD[] = { UINT64_MAX, 0, R_EPOCH - 1, 86400, R_EPOCH + 1023 * R_STEP + 9, R_EPOCH + 4000 * R_STEP };
+    for (unsigned g = 0; g < 3; g++) for (unsigned o = 0; o < 6; o++) for (int pat = 0; pat < 6; pat++) {
+        uint64_t seq[3]; for (int i = 0; i < 3; i++) seq[i] = GOOD[g]; if (pat < 3) seq[pat] = ODD[o]; else { seq[pat - 3] = ODD[o]; seq[(pat - 2) % 3] = ODD[(o + 1) % 6]; }
+        memcpy(E.clock_seq, seq, sizeof seq); E.clock_seq_n = 3; E.clock_seq_i = 0; env_clear_log();
+        polyseed_data *s = NULL; int st = polyseed_create(0, &s); r->cases++; r->calls++;
+        char rep[120]; sprintf(rep, "flaky %llu %llu %llu", (unsigned long long)seq[0], (unsigned long long)seq[1], (unsigned long long)seq[2]);
+        if (st != POLYSEED_OK) { res_viol(r, "c11:create", rep, "create failed"); continue; }
+        uint64_t B = polyseed_get_birthday(s); polyseed_free(s); r->calls += 2;
+        int ok = 0; unsigned long reads = E.n_time; for (unsigned long i = 0; i < reads && i < 3; i++) if (B == ref_birthday_time(ref_birthday_index(seq[i]))) ok = 1;
+        r->digest ^= mix64(g * 100 + o * 10 + (uint64_t)pat, B);
+        if (!ok) res_viol(r, "c11:clock-changes-between-reads", rep, "the clock returned %llu, %llu, %llu on successive reads (%lu read during create); the birthday %llu corresponds to none of the values read", (unsigned long long)seq[0], (unsigned long long)seq[1], (unsigned long long)seq[2], reads, (unsigned long long)B);
+        else { r->validated++; r->cls[0]++; }
+    }
+    E.clock_seq_n = 0;
+    res_sample(r, "clock returning e.g. (valid, valid, error value) on successive reads inside one create");
+}
+
 int main(int argc, char **argv) {
     int a = common_args(argc, argv);
     ref_init(VERIF_ROOT); sec_mark_initial(); env_init(); inject(0);
@@ -97,6 +118,7 @@ int main(int argc, char **argv) {
     out_part("boundary clock values (all 1024 month boundaries both sides, special values, powers of two)", r, CLS, "");
     memset(r, 0, sizeof *r); par_run(1024, work_tr, NULL, r);
     out_part("all 1024 month indices through store/load, encode/decode x10, crypt", r, CLS, "");
+    memset(r, 0, sizeof *r); flaky_clock(r); out_part("clock whose readings change inside one call", r, CLS, "birthday must correspond to a value actually read");
     if (every) {
         memset(r, 0, sizeof *r); par_run((long)(1026 * R_STEP), work_every, NULL, r);
         out_part("every second from EPOCH-STEP to EPOCH+1025*STEP", r, CLS, "complete enumeration of the documented range plus one month on each side");
